@@ -82,6 +82,8 @@ def classify(case, detail):
             return "nested-variable-location-default-ignored"
         if f["family"] == "null-value" and re.search(r'Expected value of type "[^"]+!", found null', msg) and " = null" in unq(case):
             return "nested-variable-location-default-ignored"
+        if f["family"] == "fragment-spread-impossible" and "covariant-narrowing" in detail:
+            return "flattened-interface-fragment-narrows-field-type"
         if f["family"] == "fragment-cycle":
             return "union-fragment-in-union-rejected"
     return None
